@@ -43,6 +43,9 @@ def write_elf(obj, f, type="executable"):
     writer.export_object(obj, e_type)
 
 
+# Special section indices:
+SHN_ABS = 0xFFF1
+
 # Elf types:
 ET_NONE = 0
 ET_REL = 1
@@ -318,7 +321,11 @@ class ElfWriter:
             entry = self.header_types.SymbolTableEntry()
             entry.st_name = self.get_string(symbol.name)
             entry.st_info = (int(st_bind) << 4) | int(st_type)
-            if symbol.defined:
+            if symbol.defined and symbol.section is None:
+                # Absolute symbol, not relative to any section:
+                entry.st_shndx = SHN_ABS
+                entry.st_value = symbol.value
+            elif symbol.defined:
                 entry.st_shndx = self.section_numbers[symbol.section]
                 entry.st_value = (
                     symbol.value + self.obj.get_section(symbol.section).address
